@@ -33,12 +33,45 @@ def run(tier, v):
             if tier == "thorough":
                 scen.append({"crate": crate, "kind": kind, "n": 60, "len": 1400, "cap": 1000, "conns": 1000, "server": False})
                 scen.append({"crate": crate, "kind": kind, "n": nseg, "len": 100, "cap": 1, "conns": 1, "server": False})
+    # scripted connections: what happens AFTER something was reported, in both directions, with retransmissions, HTTP/2
+    from props import c10
+    hello = c10.hello("long.example")
+    REQ = b"GET /long HTTP/1.1\r\nHost: long.example\r\nUser-Agent: long/1.0\r\n\r\n"
+    RESP = b"HTTP/1.1 200 OK\r\nServer: long-srv\r\nContent-Type: application/octet-stream\r\n\r\n"
+    H2 = b"PRI * HTTP/2.0\r\n\r\nSM\r\n\r\n" + bytes([0, 0, 0, 4, 0, 0, 0, 0, 0])
+    H2H = H2 + bytes([0, 0, 3, 1, 5, 0, 0, 0, 1, 0x82, 0x86, 0x84])
+    c = lambda **kw: dict(dir="c", **kw)
+    sv = lambda **kw: dict(dir="s", **kw)
+    scripts = {
+        "tls_hello_then_appdata": (443, [c(hex=hello.hex()), c(kind="tls_appdata", n=nseg, len=1400)]),
+        "tls_split_hello_then_appdata": (443, [c(hex=hello[:40].hex()), c(hex=hello[40:].hex()), c(kind="tls_appdata", n=nseg, len=1400)]),
+        "tls_hello_then_random": (443, [c(hex=hello.hex()), c(kind="random", n=nseg, len=1400)]),
+        "tls_hello_retransmitted": (443, [c(hex=hello[:60].hex(), n=nseg, retx=True)]),
+        "tls_appdata_from_server_after_hello": (443, [c(hex=hello.hex()), sv(kind="tls_appdata", n=nseg, len=1400)]),
+        "http_exchange_then_response_body": (80, [c(hex=REQ.hex()), sv(hex=RESP.hex()), sv(kind="bytes_b", n=nseg, len=1400)]),
+        "http_exchange_then_binary_both_ways": (80, [c(hex=REQ.hex()), sv(hex=RESP.hex())] + [x for _ in range(min(nseg, 3000) // 2) for x in (c(kind="random", n=1, len=1400), sv(kind="random", n=1, len=1400))]),
+        "http_request_segment_retransmitted": (80, [c(hex=REQ[:30].hex(), n=nseg, retx=True)]),
+        "http_body_segment_retransmitted": (80, [c(hex=REQ.hex()), c(kind="bytes_b", n=nseg, len=1400, retx=True)]),
+        "http_response_without_request": (80, [sv(hex=RESP.hex()), sv(kind="bytes_b", n=nseg, len=1400)]),
+        "http_pipelined_requests": (80, [c(hex=REQ.hex(), n=nseg)]),
+        "http_many_exchanges": (80, [x for _ in range(min(nseg, 3000) // 2) for x in (c(hex=REQ.hex()), sv(hex=RESP.hex()))]),
+        "h2_start_then_data": (80, [c(hex=H2H.hex()), c(kind="h2_data", n=nseg, len=1400)]),
+        "h2_preface_then_many_headers": (80, [c(hex=H2.hex()), c(kind="h2_headers", n=nseg, len=1400)]),
+        "h2_start_then_many_headers": (80, [c(hex=H2H.hex()), c(kind="h2_headers", n=nseg, len=1400)]),
+        "h2_response_then_data": (80, [c(hex=H2H.hex()), sv(hex=(bytes([0, 0, 0, 4, 0, 0, 0, 0, 0]) + bytes([0, 0, 1, 1, 4, 0, 0, 0, 1, 0x88])).hex()), sv(kind="h2_data", n=nseg, len=1400)]),
+    }
+    for name, (port, script) in scripts.items():
+        crates = ("tls", "uni") if name.startswith("tls") else ("http", "uni")
+        for crate in crates:
+            scen.append({"crate": crate, "kind": name, "script": script, "port": port, "n": 0, "len": 1400, "cap": 1, "conns": 1, "server": False})
+            if tier == "thorough":
+                scen.append({"crate": crate, "kind": name, "script": [dict(st, n=max(1, st.get("n", 1) // 10)) for st in script], "port": port, "n": 0, "len": 1400, "cap": 10, "conns": 10, "server": False})
     for i, s in enumerate(scen):
         s.update(id=i, seed=vlib.seed(), stop_retained=BASE + s["conns"] * L, stop_alloc=A + B * 1500)
     req = os.path.join(wd, "res.req")
     vlib.write_ndjson(req, scen)
     out = os.path.join(wd, "res.out")
-    vlib.run_hv("res", req, out, timeout=3000)
+    vlib.run_hv_split("res", req, out, parts=8, timeout=3000)
     trace = os.path.join(wd, "trace.ndjson")
     n_ev = n_pk = 0
     maxima = []
